@@ -82,10 +82,9 @@ def prunePipeline (p : Plan) (ex : Extras) : Res :=
           | .ok a1, some cm1 =>
             let ws := (List.range p.size).filterMap fun i =>
               if reach.getD i false && isWitness (p1.getD i .unit) then
-                (do let bits ← ex.wit i
-                    let v ← valOfCompact (arrows.getD i (.one, .one)).2 bits
-                    let w ← pruneV v (a1.getD i (.one, .one)).2
-                    pure (i, compact w)) <|> some (i, [true, false, true, false, true, false, true])  -- marks a model failure
+                match pruneWit ex.wit arrows a1 i with
+                | some bits => some (i, bits)
+                | none => some (i, [true, false, true, false, true, false, true])  -- marks a model failure
               else none
             .ok { plan := p1, reach := reach, codeArrows := a1, wits := ws, cmr := cm1 }
           | .ok _, none => .err "bad-plan"
